@@ -108,6 +108,9 @@ class PropertyCheck:
         self.undecided = []
         self.notes = []
 
+    def tier_is_unchanged_tree_expected(self):
+        return False
+
     # ---- obligations
     def generate(self):
         repo.reset()
@@ -118,6 +121,7 @@ class PropertyCheck:
         self.obls = []
         self.covers = []
         self.functions = []
+        self.outside = []
         self.assumptions_used = set()
         self.paths = 0
         only = self.cfg.get("functions")
@@ -126,7 +130,13 @@ class PropertyCheck:
                 continue
             if only is not None and q not in only:
                 continue
-            ex = ver.verify_function(con)
+            try:
+                ex = ver.verify_function(con)
+            except Unsupported as u:
+                # the function has left the VC generator's fragment: bounded stand-in (runtime contract
+                # search), labelled as such, never counted as proved
+                self.outside.append({"function": q, "reason": str(u)})
+                continue
             fi = repo.lookup(q)
             if not ex.order:
                 raise RuntimeError(f"vacuity: function {q} produced no obligations")
@@ -154,7 +164,11 @@ class PropertyCheck:
             self.paths += ex.paths
         self.lemma_names = []
         for q in self.reg.lemmas:
-            ex = ver.verify_lemma(q)
+            try:
+                ex = ver.verify_lemma(q)
+            except Unsupported as u:
+                self.outside.append({"function": q, "reason": str(u)})
+                continue
             if not ex.order:
                 raise RuntimeError(f"vacuity: lemma {q} produced no obligations")
             self.functions.append({"function": q, "file": "verif:" + q.rsplit(".", 1)[0], "lemma": True,
@@ -166,6 +180,8 @@ class PropertyCheck:
             self.paths += ex.paths
         if not self.obls:
             raise RuntimeError("vacuity: zero obligations")
+        if self.outside and self.tier_is_unchanged_tree_expected():
+            pass
         # canary: a deliberately false obligation must come back sat
         import z3
         from pyvc.exec import Obligation
@@ -252,6 +268,31 @@ class PropertyCheck:
             else:
                 self.undecided.append(rec)
 
+    def bounded_standins(self):
+        """functions outside the fragment: search their runtime contract natively (bounded)"""
+        rng = random.Random(self.seed + 2)
+        nat = self.native()
+        budget = 4000 if self.tier == "quick" else 60000
+        for o in self.outside:
+            fn = o["function"]
+            try:
+                if fn in self.reg.lemmas:
+                    found, detail, tried = nat.search_lemma(fn, self.reg, rng, budget=budget)
+                else:
+                    found, detail, tried = nat.search(fn, self.reg, rng, budget=budget)
+            except Exception as e:
+                o["bounded"] = f"native search failed to run: {e!r}"
+                self.undecided.append({"obligation": fn + ":outside-fragment", "solver_status": "n/a", "native_tried": 0})
+                continue
+            o["bounded"] = f"{tried} runtime-contract evaluations, " + ("FAILURE" if found is not None else "no failure")
+            print(f"BOUNDED-STANDIN function={fn} (outside the fragment: {o['reason'][:120]}): {o['bounded']}")
+            if found is not None:
+                self.violations.append({"obligation": fn + ":runtime-contract(bounded stand-in)", "kind": "runtime",
+                                        "function": fn, "solver_status": "n/a", "backend": "native", "clause": None,
+                                        "why": "function outside the fragment; its runtime contract fails",
+                                        "counter_model": None, "native_input": found, "native_detail": detail,
+                                        "native_tried": tried})
+
     def native_smoke(self):
         """Small CPython differential on every run: the runtime contracts evaluated on the real
         functions (guards the translator; a failure here with all proofs green is an engine defect
@@ -324,6 +365,7 @@ class PropertyCheck:
             "cross_solver": {"enabled": self.tier == "thorough",
                              "agreeing": sum(1 for r in self.results if "cross" in r and r["status"] == "unsat")},
             "undecided": [u["obligation"] for u in self.undecided],
+            "functions_outside_fragment": self.outside,
             "known_findings_reported": self.known_hits,
             "notes": self.notes,
             "phase_seconds": getattr(self, "phase", {}),
@@ -344,7 +386,7 @@ class PropertyCheck:
         with open(os.path.join(VERIF, "evidence", f"{self.prop}.json"), "w") as f:
             json.dump(ev, f, indent=1, default=str)
 
-    def run(self):
+    def run(self, write_evidence=True, label=None):
         try:
             self.phase = {}
             t = time.time()
@@ -355,6 +397,7 @@ class PropertyCheck:
             self.phase["discharge_s"] = round(time.time() - t, 2)
             t = time.time()
             self.triage()
+            self.bounded_standins()
             self.phase["triage_s"] = round(time.time() - t, 2)
             t = time.time()
             if not self.undecided:
@@ -387,11 +430,13 @@ class PropertyCheck:
             else:
                 real.append(v)
         self.violations = real
-        self.evidence(self.extra_cov)
+        if write_evidence:
+            self.evidence(self.extra_cov)
         for line in self.known_hits:
             print(line)
         discharged = sum(1 for r in self.results if r["status"] == "unsat")
-        print(f"{self.prop}: {len(self.obls)} obligations, {discharged} discharged, "
+        self.discharged = discharged
+        print(f"{self.prop}{' [' + label + ']' if label else ''}: {len(self.obls)} obligations, {discharged} discharged, "
               f"{len(self.violations)} violated, {len(self.undecided)} undecided, "
               f"{len(self.functions)} functions/lemmas under contract, {round(time.time() - self.t0, 1)} s {self.phase}")
         if self.violations:
